@@ -207,7 +207,7 @@ CLAIMS['C04'] = dict(
 # clauses added in the second session (rules listed in DESIGN.md section 6.2)
 EXTRA = {
  'C01': 'Also decided: the HTTP header budget is charged with exactly the bytes handed to the parser on each pass (symbolic equality with size - cursor), so the 16 KiB limit does not depend on segmentation.',
- 'C02': 'Also decided: no throwing overload of a booster::aio socket operation is used in a connection class where an error_code overload exists; no throw expression or checked accessor (at(), sto*()) is reachable outside a try block from the context callbacks that prepare a request on the event-loop thread (call graph over eight units, library calls without a body assumed not to throw).',
+ 'C02': 'Also decided: no throwing overload of a booster::aio socket operation is used in a connection class where an error_code overload exists; no throw expression or checked accessor (at(), sto*()) is reachable outside a try block from the context callbacks that prepare a request on the event-loop thread (call graph over eight units, library calls without a body assumed not to throw). An accessor of booster::aio::endpoint that raises on an empty endpoint is applied to the result of remote_endpoint(e) only behind the test of e (C02.R2).',
  'C03': 'Also decided: the FastCGI full-size record header is prepared on the strength of the current call only (no connection state in the guard); booster::aio::details::advance (buffer + n) keeps exactly the bytes after the first n.',
  'C04': 'Also decided: ascii_streq, which pairs closing with opening tags, is exact (abstract interpretation, names of 0..3 bytes) and pairing happens only on its success.',
  'C05': 'Also decided: aes_factory takes the encryption key and the MAC key from disjoint, covering parts of an exact-length secret (linear implication) or from two separately labelled HMAC derivations.',
@@ -225,13 +225,13 @@ EXTRA = {
 }
 EXTRA2 = {
  'C01': 'Embedded HTTP server (no pinned test covers it): the request line is split at its two spaces; Content-Length / Content-Type are kept (also in the typed fields), other headers become HTTP_<NAME>; every parser outcome is followed up; read-ahead body bytes are handed out first, once, in order; the URI is split at "?", the script name is cut only on a whole-component match (and always then), PATH_INFO is the decoded rest; a header line maps to (NAME, value) exactly (abstract interpretation over all byte values for lines with free bytes in the name, around the colon and in folded white space). FastCGI socket path: the bytes asked from the socket are content + padding of the record and the read is skipped only when that sum is 0 (C01.R5). The script-name clause of C01.R6 is established either structurally or by interpreting one turn of the script-name loop over a grid of (path, name) pairs.',
- 'C03': 'HTTP framing decisions: the bytes of every write are in what is sent (plain or chunk-framed), a computed Content-Length is the size of the single complete write, keep-alive only when the body end is recognisable, chunking exactly when kept alive without a length, header block closed by an empty line. Output stream buffers test the overflowing character against EOF as an int (C03.R12: no comparison on a value narrowed to char); the response header map orders names as their lower-cased spellings (C03.R13, E3 over a name grid).',
- 'C04': 'Tokeniser: per turn of the main loop exactly one entry from the old to the new cursor (path engine, any input length); plain text never opens on or runs over < > &; tag / entity / comment entries only after their delimiter; entry shapes and the attribute-value language exact for all short inputs (abstract interpretation).',
+ 'C03': 'HTTP framing decisions: the bytes of every write are in what is sent (plain or chunk-framed), a computed Content-Length is the size of the single complete write, keep-alive only when the body end is recognisable, chunking exactly when kept alive without a length, header block closed by an empty line. Output stream buffers test the overflowing character against EOF as an int (C03.R12: no comparison on a value narrowed to char); the response header map orders names as their lower-cased spellings (C03.R13, E3 over a name grid). Every overflow(c) of the response buffers takes c before it reports success (C03.R12).',
+ 'C04': 'Tokeniser: per turn of the main loop exactly one entry from the old to the new cursor (path engine, any input length); plain text never opens on or runs over < > &; tag / entity / comment entries only after their delimiter; entry shapes and the attribute-value language exact for all short inputs (abstract interpretation). uri_parser::scheme() takes exactly the RFC 3986 scheme characters (C04.R11, E3 over every first and second byte).',
  'C05': 'The value compared with the transmitted MAC is the HMAC just read out from the object that was fed the message; size - digest_size only after the length test; CBC output buffers hold what is written. Legacy encryptor spelling: the default MAC algorithm only under == "hmac", prefix tests exactly as long as their literal, the algorithm name cut off after a tested prefix of that length (C05.R5).',
  'C06': 'The session blob writer and reader agree field by field (header, key, value offsets and lengths symbolic; lengths that do not fit their bit field are refused). Network session storage picks the server by the session id alone in save / load / remove and sends the id first; the typed accessors set<T> / get<T> work in the classic locale (C06.R13).',
- 'C07': 'The value stored is the value supplied and the one fetched; the iterator linked into lru / timeout / triggers is the inserted one; add_trigger registers entry and back reference; rise / remove delete every selected entry. cache_interface::fetch / store never override the caller\'s notriggers argument (C07.R6). cache_interface plumbing (C07.R10): rise / clear reach the backend, trigger loops visit their whole container, store records exactly when not notriggers, deadtime(sec) = now + sec or never, recorders keep and hand out what they are told, frame wrappers forward.',
+ 'C07': 'The value stored is the value supplied and the one fetched; the iterator linked into lru / timeout / triggers is the inserted one; add_trigger registers entry and back reference; rise / remove delete every selected entry. cache_interface::fetch / store never override the caller\'s notriggers argument (C07.R6). cache_interface plumbing (C07.R10): rise / clear reach the backend, trigger loops visit their whole container, store records exactly when not notriggers, deadtime(sec) = now + sec or never, recorders keep and hand out what they are told, frame wrappers forward. shmem_control accessors forward to the allocator primitive of their own meaning and memory pressure is judged from the largest free chunk; cache_pool reads only option paths the reference configuration knows (C07.R10).',
  'C10': 'Wire format end to end (store frame and data reply: lengths, slices, NUL-separated names; operations reach the cache); the client verdict follows the reply opcode.',
- 'C11': 'Object keys are compared over their whole length (no NUL-terminated primitive reachable from string_key comparison). The arithmetic behind \\u escapes is exact by abstract interpretation: utf8::encode gives the RFC 3629 bytes and length for every code point (aligned 64-blocks; every 7th block in the quick tier), the surrogate range tests and combine_surrogate are exact (C11.R10). The tokenizer validates decoded strings as plain UTF-8 (effective html argument false) (C11.R3).',
+ 'C11': 'Object keys are compared over their whole length (no NUL-terminated primitive reachable from string_key comparison). The arithmetic behind \\u escapes is exact by abstract interpretation: utf8::encode gives the RFC 3629 bytes and length for every code point (aligned 64-blocks; every 7th block in the quick tier), the surrogate range tests and combine_surrogate are exact (C11.R10). The tokenizer validates decoded strings as plain UTF-8 (effective html argument false) (C11.R3). Narrowing floating conversions test both bounds against the limits of the type converted to (C11.R7).',
  'C12': 'The in-memory field limit handed to size_ok is content_length_limit(). Saving an upload keeps every byte (C12.R7): the reading side is cleared and rewound and the buffer synchronised before the bytes move, in-memory uploads are copied out, on-disk ones renamed and copied only after a failed rename, save_by_copy writes the whole stream in binary mode. The upload stream buffer returns characters only through to_int_type / unsigned char (C12.R8: 0xFF must not read as end of file). The limits compared are the configured ones (C12.R9): each from the settings entry of its own name and key, KB limits scaled by exactly 1024, accessors read / write their own member.',
  'C13': 'normalize_path never yields a climbing path for any input up to 6 (8 thorough) bytes (abstract interpretation by byte class); an alias applies only on a whole-component prefix, at most once, with the target of the tested alias; the unchecked branch returns root + path minus one trailing separator. Only / separates path components in this configuration (E3 over every byte) and the document root and alias targets are stored only after canonical() resolved them (C13.R7).',
  'C14': 'Form text widgets validate the whole value, mark invalid text, and compare both limits with the code-point count. The accept set of every single-byte validator equals the defined non-control characters of its code pages (reference: Python codec tables); the whole-string UTF-8 validators ask the decoder once per code point, in order, and count one per code point (decoder summarised); dispatch by name hands (begin,end,count) to the registered validator, falls back through a stop-conversion to UTF-8, and the single-byte and conversion-based filters keep good text and replace or drop the rest; encoding names compare by their lower-cased alphanumerics. An out-of-bounds access or a value-returning function falling off its end met during abstract interpretation is reported as a violation (rule Cnn.BOUNDS). The iconv back-end never ends a stop conversion normally after a failed step other than E2BIG (C14.R6).',
@@ -240,7 +240,7 @@ EXTRA2 = {
  'C17': 'The recorded event set of a descriptor is the one the reactor was armed with. Thread pool liveness shape (C17.R13): one worker thread per index, a worker leaves only on shutdown, takes only from a non-empty queue, waits only on an empty one, invokes a held job, stop() joins every worker, cancel searches the whole queue; the lockset rule treats a method that only constructors / destructors call as an entry point. Teardown and adapters (C17.R14): close() reaches cancel() for non-owning devices too, the connect adapter hands on every error except exactly select_failed, a cancelled descriptor is removed from the reactor on every path. Read / write until done completes with the accumulated byte count (C17.R10).',
  'C18': 'read_all / write_all transfer exactly n bytes or fail and terminate (end of file fails instead of spinning); success hands out the verified bytes (empty only for stored size 0); in cross-process mode a descriptor is kept only under an exclusive fcntl lock on the file the name still refers to. Multi-process mode: the mutex table is a MAP_SHARED mapping of lock_size_ process-shared mutexes; crc32_calc::process_bytes covers [ptr, ptr+n) once, in order, chained (C18.R7, E3 with the CRC primitive as recorder).',
  'C19': 'Reader cursor arithmetic (length word at the cursor, payload 4 bytes behind it, advance 4 + payload); str / mode / reset / assignment install the state; container loaders append in archive order.',
- 'C20': 'A method filter is classified by scanning all of it; keyword defaults are kept only in the root-most mapper. Dispatcher plumbing (C20.R8): the three filter modes set by the constructors are the ones matches() tests; every dispatch overrider runs its handler exactly when matches() held; registration functions append one option built from their arguments with selectors in order; url_dispatcher::dispatch hands on the request method of the context or none. mount_point copy construction / assignment take every pattern and selector from the source (C20.R8).',
+ 'C20': 'A method filter is classified by scanning all of it; keyword defaults are kept only in the root-most mapper. Dispatcher plumbing (C20.R8): the three filter modes set by the constructors are the ones matches() tests; every dispatch overrider runs its handler exactly when matches() held; registration functions append one option built from their arguments with selectors in order; url_dispatcher::dispatch hands on the request method of the context or none. mount_point copy construction / assignment take every pattern and selector from the source (C20.R8). The last component of a mapping key is compared with "." / ".." on every way to the lookup, with or without a keyword list (C20.R7); the stream buffer generated URLs are collected in keeps the byte that did not fit when it grows (C20.R8).',
  'C08': 'A hash-map node whose construction throws is given back to the allocator (C08.R6).',
  'C09': 'Members of the cache hash map that the lockset treats as reads (find, size, const members) write no field of the container, transitively (C09.R5).',
 }
